@@ -94,6 +94,9 @@ def build_model():
 
 
 # ------------------------------------------------------------------------------------------------ running
+CONFIRMED_TIMEOUTS = [0]
+
+
 def run_impl(hist_path, oracle=True, profile="release", timeout=30, retry=False):
     """run the crate on a history in a child process. Returns dict(lines, oracle, status).
     retry=True: a timeout is confirmed by a second run with ten times the limit (at least 40 s) before it counts, so that a
@@ -104,8 +107,12 @@ def run_impl(hist_path, oracle=True, profile="release", timeout=30, retry=False)
         status = "ok" if p.returncode == 0 else "crash(rc=%d)" % p.returncode
         out = p.stdout
     except subprocess.TimeoutExpired as e:
-        if retry:
-            return run_impl(hist_path, oracle=oracle, profile=profile, timeout=max(40, timeout * 10), retry=False)
+        if retry and CONFIRMED_TIMEOUTS[0] < 3:
+            # (after three confirmed hangs the crate is taken to hang for real and later timeouts are not re-run)
+            r = run_impl(hist_path, oracle=oracle, profile=profile, timeout=max(40, timeout * 10), retry=False)
+            if r["status"] == "timeout":
+                CONFIRMED_TIMEOUTS[0] += 1
+            return r
         status = "timeout"
         out = e.stdout.decode("utf-8", "replace") if isinstance(e.stdout, bytes) else (e.stdout or "")
     lines, oracle_lines, info = [], [], []
